@@ -26,7 +26,7 @@ from ..flow import PathEnum, cond_facts
 from ..fold import try_fold
 from ..model import AnalysisError, Func, Repo, dotted, is_name, norm, walk_shallow
 from ..report import Ledger
-from ..util import ancestors, contains, local_defs, names_in, path_calls, paths
+from ..util import end_pos, pos, ancestors, contains, local_defs, names_in, path_calls, paths
 
 PROP = "C01"
 LEVEL = "other"
@@ -404,7 +404,7 @@ def _r3(repo, L, m, ba):
     wl = [n for n in walk_shallow(dof.node) if isinstance(n, ast.While)]
     mk = [c for c in repo.calls_in(dof) if dotted(c.func) == "OverhangResolver"]
     fx = [c for c in repo.calls_in(dof) if isinstance(c.func, ast.Attribute) and c.func.attr == "make_fixes"]
-    okw = len(wl) == 1 and len(mk) == 1 and len(fx) == 1 and contains(wl[0], mk[0]) and contains(wl[0], fx[0]) and mk[0].lineno < fx[0].lineno
+    okw = len(wl) == 1 and len(mk) == 1 and len(fx) == 1 and contains(wl[0], mk[0]) and contains(wl[0], fx[0]) and pos(mk[0]) < pos(fx[0])
     L.check(okw, "R3", dof.short + ":fresh-premises", "a fresh resolver (fresh premises) in every round", "the overhang resolver is not rebuilt inside each round: premises computed against an earlier state are applied again after rows have been removed, discarding a contig from its only remaining owner (recorded as found, never re-added)", dof.loc())
     # loop continues until no fix; every fix processed
     fixv = None
